@@ -32,40 +32,40 @@ CHECKS = {
  "C03": C("cluster", "DESIGN.md 3.1, 4 (C03)", "explicit-state BFS over action histories on real nodes, ledger membership of every held entry on every transition",
    "Every entry of every copy after every explored transition must be a ledger write of that owner with that exact version, value and status; no copy's max version or heartbeat exceeds the owner's.", TRUST),
  "C04": C("cluster+pair+kv", "DESIGN.md 3.1-3.3, 4 (C04)", "explicit-state BFS on real nodes + exhaustive (copy, delta) cross product + exhaustive local operation sequences",
-   "Frontier and per-key version monotonicity and absence of panics on every explored transition, on every (receiver copy, honest-shaped delta) pair of the small scope, and version allocation on every local operation sequence.", TRUST),
+   "Frontier and per-key version monotonicity and absence of panics on every explored transition, on every (receiver copy, honest-shaped delta) pair of the small scope, and version allocation on every local operation sequence; the catch-up entry point (every existing copy x supplied state, followed by key-GC passes timed between out-of-order tombstone expiries) with the frontier / per-key version / no-abort oracle.", TRUST),
  "C05": C("cluster", "DESIGN.md 3.1, 4 (C05)", "explicit-state BFS over action histories on real nodes, own-namespace snapshot before/after every processed message",
    "For every processed message in the exploration the receiver's own copy is unchanged (heartbeat + 1), writes change only the writer's own copy, and no copy is ahead of its owner.", TRUST),
  "C06": C("kv", "DESIGN.md 3.3, 4 (C06)", "bounded-exhaustive enumeration of operation sequences on the real NodeState + explicit-state BFS (depth 40) against a reference model",
-   "Every operation sequence up to the length bound (no deduplication) and every abstract state reachable within 40 operations is executed on the real NodeState; after each, all public reads are compared with a reference versioned map; covers the GC boundary before / exactly at / after the grace period.",
+   "Every operation sequence up to the length bound (no deduplication) and every abstract state reachable within 40 operations is executed on the real NodeState; after each, all public reads are compared with a reference versioned map; covers the GC boundary before / exactly at / after a grace period that is not a whole number of seconds.",
    TRUST + " The reference mirrors two quirks the statement does not rule out (delete on a tombstone takes a fresh version; delete_after_ttl on a tombstone re-exposes the key with an empty value)."),
  "C07": C("mtu+pair", "DESIGN.md 3.4, 4 (C07), 5 (F-5)", "boundary-directed exhaustive sweeps on the real reply path (own-digest size x value length, block boundaries + bisection window, every budget 100..2200 x every equal-staleness order)",
    "Every reply in the sweeps is measured against 65,507 bytes and its delta compared entry by entry with the sender's state; the sweeps put the stream at every offset around block and budget boundaries.", TRUST),
  "C08": C("wire", "DESIGN.md 3.4, 4 (C08), Appendix A", "bounded grammar enumeration; independent codec vs real codec in both directions",
-   "Every message of the bounded grammar is encoded by an independent implementation of the documented layout under five block layouts and read by the real decoder (message view must equal the AST, all bytes consumed); real emissions over all length classes are read by the independent decoder; announced lengths equal bytes written.", TRUST),
+   "Every message of the bounded grammar is encoded by an independent implementation of the documented layout under five block layouts and read by the real decoder (message view must equal the AST, all bytes consumed); real emissions over all length classes, bulk states (streams of hundreds of blocks, ~10 MB before compression) and members sharing an address are read by the independent decoder; announced lengths equal bytes written.", TRUST),
  "C09": C("hostile", "DESIGN.md 3.7, 4 (C09), 5 (F-3)", "exhaustive op sequences in arbitrary order and exhaustive byte-level mutations delivered to real nodes",
-   "All op sequences up to the length bound over a hostile alphabet (any order, extreme values, spoofed ids), all ordered pairs of short datagrams, and every truncation / single-byte replacement / block-length perturbation of a corpus are decoded and processed by real nodes in six base states; no panic, invariants intact.", TRUST),
+   "All op sequences up to the length bound over a hostile alphabet (any order, extreme values, spoofed ids), all ordered pairs of short datagrams, and every truncation / single-byte replacement / block-length perturbation of a corpus are decoded and processed by real nodes in six base states; no panic, invariants intact. An explicit-state BFS over sequences of hostile datagrams and liveness evaluations (deduplicated on the observable node state) runs to a fixpoint or depth 20; the real UdpSocket::recv is driven with every short sequence of garbage / valid datagrams over loopback.", TRUST + " The closure's state key cannot see the failure detector's windows and timers: merging on it can lose coverage, never raise an alarm. Loopback timeouts are inconclusive, never violations."),
  "C10": C("fd", "DESIGN.md 3.6, 4 (C10)", "exhaustive event sequences (heartbeats, clock advances, evaluations) + unrolled periodic schedules on a real observer over a configuration grid",
    "At every evaluation of every enumerated history the member must be dead once the last strictly higher heartbeat is older than phi x max(max_interval, initial_interval), and never live with fewer than two observations; long periodic histories exercise window wrap and the incremental sum.", TRUST),
  "C11": C("fd", "DESIGN.md 3.6, 4 (C11)", "exhaustive event sequences with a differential oracle (history with vs without stale heartbeats) + steady-arrival schedules",
-   "Every enumerated history containing equal/lower heartbeats is re-run without them and must yield identical verdicts; liveness never precedes two strictly increasing values; steady arrivals within [a,b] with the threshold at b/min(a,initial) are never flagged.", TRUST),
- "C12": C("membership", "DESIGN.md 3.5, 4 (C12)", "exhaustive action sequences on three real nodes after a deterministic warm-up, from five roots (crash, partition, quarantined, removed, partition+removed)",
+   "Every enumerated history containing equal/lower heartbeats is re-run without them and must yield identical verdicts; liveness never precedes two strictly increasing values; steady arrivals within [a,b] with the threshold at b/min(a,initial) are never flagged, also for a member returning after a silence or in the second half of a finite dead-node grace period; histories with deltas that reset the observer's copy are enumerated with the non-differential oracles.", TRUST),
+ "C12": C("membership", "DESIGN.md 3.5, 4 (C12)", "exhaustive action sequences on three real nodes after a deterministic warm-up, from seven roots (crash, partition, quarantined, removed, removed while the peer stays live, partition+removed, a member removed twice)",
    "Live/dead disjointness, classification after every evaluation, exclusion from digests and deltas after grace/2, removal at grace, and the re-creation guard are checked on every step of every sequence; plus a walk of 500 members through the removed-member memory.", TRUST),
  "C13": C("membership", "DESIGN.md 3.5, 4 (C13)", "exhaustive action sequences on three real nodes, watch-channel value compared with the evaluated membership after every evaluation, with and without the extra predicate",
-   "After every evaluation in every sequence the channel value must list exactly the live members satisfying the predicate with their current max versions, and a publication must have happened whenever the live set or a live member's version changed.", TRUST + " TTL-driven predicate flips without a version change (observation O-2) are outside the quantifier's step relation and are not raised."),
+   "After every evaluation in every sequence the channel value must list exactly the live members satisfying the predicate with their current max versions, and a publication must have happened whenever the live set or a live member's version changed; also when no receiver is held between evaluations and the value is read on demand.", TRUST + " TTL-driven predicate flips without a version change (observation O-2) are outside the quantifier's step relation and are not raised."),
  "C14": C("pair", "DESIGN.md 3.2, 4 (C14), Appendix B", "exhaustive cross product sender copy x receiver copy x truncation point on real nodes against a reference admission table",
    "For every pair of copies in the small scope the real sender's delta (from the receiver's real digest, under every truncating budget) is compared op by op with the admission table and delivered to the real receiver, whose resulting copy is compared with the table; resets exactly when both frontiers lie below the sender's watermark. A second sweep puts two members in the same delta (companion in 6 situations, both id orders, every equal-staleness order) and checks each member against the table plus strict progress.", TRUST),
  "C15": C("listeners", "DESIGN.md 3.7, 4 (C15), 5 (F-2)", "exhaustive enumeration of keys / prefix sets over an alphabet with multi-byte characters x life cycles x write kinds on a real node",
-   "For all strings up to length 3 over {a, b, é, 😀}: every prefix set of size <= 2 x key, every prefix x key x life cycle x write kind (local and replicated), and every 8-subset of near-miss prefixes; the multiset of callbacks must equal the reference.", TRUST),
+   "For all strings up to length 3 over {a, b, é, 😀}: every prefix set of size <= 2 x key, every prefix x key x life cycle x write kind (local and replicated), and every 8-subset of near-miss prefixes; the multiset of callbacks must equal the reference; write kinds include deltas that reset the copy; a handle dropped by a second real thread while a notification is in progress must be unsubscribed afterwards.", TRUST + " The two-thread part runs one fixed interleaving per case (drop begins inside the notification window), synchronised by channels."),
  "C16": C("isolation", "DESIGN.md 3.7, 4 (C16)", "explicit-state BFS over two clusters of real nodes with different ids, message granularity with duplication",
-   "In every explored state no node knows a member of the other cluster; every foreign SYN is answered by exactly BadCluster and leaves the receiver bit-identical (heartbeat + 1); BadCluster replies change nothing.", TRUST + " SYN-ACK/ACK carry no cluster id (observation O-3); one address serving both clusters over time is outside the quantifier."),
+   "In every explored state no node knows a member of the other cluster; every foreign SYN is answered by exactly BadCluster and leaves the receiver bit-identical (heartbeat + 1); BadCluster replies change nothing; every prefix of a foreign SYN's bytes (cluster ids in every relation, incl. prefix-of-each-other) is undecodable or rejected without effect.", TRUST + " SYN-ACK/ACK carry no cluster id (observation O-3); one address serving both clusters over time is outside the quantifier."),
  "C17": C("select", "DESIGN.md 3.7, 4 (C17)", "exhaustive role multisets of up to 6 addresses x lazily enumerated generator scripts through the real selection function",
    "Every configuration of the subset structure and every script of extreme/mid generator outputs for the draws actually consumed; bounds, pools, forced-seed and forced-dead clauses, no panic. On the real server loop: every script up to the length bound must contact the seed in every round, and for every small membership (ready / not-ready / dead peers, seed placement, with and without a liveness predicate) the SYN destinations of a round must split into <= 3 pool peers + <= 1 dead + <= 1 seed.", TRUST + " The address picked from a HashSet depends on iteration order; the oracle is a membership/cardinality predicate invariant under that order."),
  "C18": C("catchup", "DESIGN.md 3.7, 4 (C18), 5 (F-4)", "exhaustive (existing copy x supplied state x position relative to a real handshake) calls of the public entry point on a real node",
    "Every call of the scope must not panic, must not lower the frontier, must leave the copy unchanged or replace its key set (newer shared keys win), must not re-create a garbage collected member nor make a member live. Sequences of calls, clock advances, evaluations and heartbeats are compared with a call-free twin run: without a heartbeat event the member is live with the calls only if it is live without them.", TRUST),
  "C19": C("server", "DESIGN.md 3.8, 4 (C19)", "exhaustive event/fault scripts against the real gossip loop over a scripted transport on a paused current-thread runtime, closing probes after every script",
-   "Every script up to the length bound over send ok/error/blocked, valid and foreign messages, fatal receive error, gossip interval, user lock, user command, shutdown and an injected panic; after each script the loop must be alive and responsive, or its termination reported; locks always granted; shutdown always completes.", TRUST + " At most one select! branch is made ready at a time (the loop re-creates all futures each iteration and they are cancel-safe); the real UDP transport is not part of the deciding step."),
+   "Every script up to the length bound over send ok/error/blocked, valid and foreign messages, fatal receive error, gossip interval, user lock, user command, shutdown and an injected panic; after each script the loop must be alive and responsive, or its termination reported; locks always granted; shutdown always completes. Also: every short byte string through the decoder the real socket runs inside the server task; the real UdpSocket over loopback for send-fault and garbage/valid receive sequences; fairness of the loop when the socket is ready 20,000 times in a row (shutdown, a due round and a user command must be served early).", TRUST + " At most one select! branch is made ready at a time (the loop re-creates all futures each iteration and they are cancel-safe); the real UDP transport is not part of the deciding step."),
  "C20": C("cluster+pair", "DESIGN.md 3.1, 3.2, 4 (C20)", "explicit-state BFS on real nodes with a counting callback + exhaustive (copy, delta) pairs + multi-member messages",
-   "For every processed SYN-ACK/ACK in the exploration, in the pair sweeps and in the multi-member family the catch-up callback count must be 1 iff some copy's watermark rose, else 0.", TRUST),
+   "For every processed SYN-ACK/ACK in the exploration, in the pair sweeps and in the multi-member family the catch-up callback count must be 1 iff some copy's watermark rose, else 0 (member deltas of 7 kinds incl. header-only resets and deltas about unknown members).", TRUST),
 }
 
 def hooks_commits():
